@@ -3,6 +3,7 @@ package main
 import (
 	"fmt"
 	"go/types"
+	"math"
 	"strings"
 
 	"golang.org/x/tools/go/ssa"
@@ -176,9 +177,14 @@ func init() {
 		fr.it.path.observes = append(fr.it.path.observes, Observation{Label: argStr(args[0]), Vals: append([]Value{}, vals...)})
 		return nil
 	})
+	reg(rtPkg+"Confirming", func(fr *frame, args []Value) Value { return fr.it.tt.fls })
 	reg(rtPkg+"Symbolic", func(fr *frame, args []Value) Value { return fr.it.tt.tru })
 	reg(rtPkg+"Terminates", func(fr *frame, args []Value) Value {
 		fr.it.cfg.hangIsViolation = true
+		return nil
+	})
+	reg(rtPkg+"TolerateUnsupported", func(fr *frame, args []Value) Value {
+		fr.it.tolerateUnsupported = true
 		return nil
 	})
 	reg(rtPkg+"Budget", func(fr *frame, args []Value) Value {
@@ -282,8 +288,8 @@ func init() {
 	reg("sync.fatal", func(fr *frame, args []Value) Value {
 		panic(fr.it.runtimePanic("other", "fatal error: "+valString(args[0])))
 	})
-	reg("internal/godebug.(*Setting).Value", func(fr *frame, args []Value) Value { return Str{} })
-	reg("internal/godebug.(*Setting).IncNonDefault", func(fr *frame, args []Value) Value { return nil })
+	reg("(*internal/godebug.Setting).Value", func(fr *frame, args []Value) Value { return Str{} })
+	reg("(*internal/godebug.Setting).IncNonDefault", func(fr *frame, args []Value) Value { return nil })
 	reg("internal/godebug.registerMetric", func(fr *frame, args []Value) Value { return nil })
 	reg("internal/godebug.setUpdate", func(fr *frame, args []Value) Value { return nil })
 	reg("internal/godebug.setNewIncNonDefault", func(fr *frame, args []Value) Value { return nil })
@@ -320,7 +326,7 @@ func init() {
 	reg("math/rand.runtime_rand", func(fr *frame, args []Value) Value { return fr.it.tt.Const(64, 0x9e3779b97f4a7c15) })
 	reg("runtime.fastrand", func(fr *frame, args []Value) Value { return fr.it.tt.Const(32, 0x9e3779b9) })
 	reg("internal/syscall/unix.fcntl", func(fr *frame, args []Value) Value {
-		return Tuple{fr.it.tt.Const(64, 0), fr.it.tt.Const(64, 0)}
+		return Tuple{fr.it.tt.Const(32, 0), fr.it.tt.Const(32, 0)}
 	})
 	reg("github.com/klauspost/cpuid/v2.asmCpuid", func(fr *frame, args []Value) Value {
 		z := fr.it.tt.Const(32, 0)
@@ -329,6 +335,17 @@ func init() {
 	reg("github.com/klauspost/cpuid.asmCpuid", func(fr *frame, args []Value) Value {
 		z := fr.it.tt.Const(32, 0)
 		return Tuple{z, z, z, z}
+	})
+
+	reg("github.com/google/uuid.New", func(fr *frame, args []Value) Value {
+		a := make(Array, 16)
+		for i := range a {
+			a[i] = fr.it.tt.bytes[(i*17+3)&0xff]
+		}
+		return a
+	})
+	reg("github.com/google/uuid.NewString", func(fr *frame, args []Value) Value {
+		return fr.it.mkStr("03142536-4758-4a6b-8c9d-aebfc0d1e2f3")
 	})
 
 	// ---- log: no-ops ----
@@ -757,5 +774,28 @@ func init() {
 			it.uniqueTab[key] = p
 		}
 		return Struct{p}
+	})
+}
+
+func init() {
+	reg("math.Float64bits", func(fr *frame, args []Value) Value {
+		return fr.it.tt.Const(64, math.Float64bits(args[0].(float64)))
+	})
+	reg("math.Float64frombits", func(fr *frame, args []Value) Value {
+		t := args[0].(*Term)
+		if t.Op != OpConst {
+			panic(engineErr("symbolic bits to float"))
+		}
+		return math.Float64frombits(t.Val)
+	})
+	reg("math.Float32bits", func(fr *frame, args []Value) Value {
+		return fr.it.tt.Const(32, uint64(math.Float32bits(args[0].(float32))))
+	})
+	reg("math.Float32frombits", func(fr *frame, args []Value) Value {
+		t := args[0].(*Term)
+		if t.Op != OpConst {
+			panic(engineErr("symbolic bits to float"))
+		}
+		return math.Float32frombits(uint32(t.Val))
 	})
 }
